@@ -865,6 +865,30 @@ def module_item(item, col):
                     col.violation(SIG.format(entry, K_STEP), dict(case, got=str(after)[:200]))
                 else:
                     col.outcome("continuation_training_steps_equal")
+        # one template module used for two restores (e.g. evaluating several checkpoints of a run): the module
+        # obtained for the first checkpoint must keep that checkpoint's parameters when a later one is restored
+        for sroute in ("OrbaxCheckpointer.record_epoch", "StandardLogger.record_epoch"):
+            arts = [(k, art) for k, r, art in saved if r == sroute]
+            if len(arts) < 2 or versions[arts[0][0]]["snap"] == versions[arts[-1][0]]["snap"]:
+                continue
+            (k0, a0), (k1, a1) = arts[0], arts[-1]
+            entry = f"{sroute}+restore_checkpoint"
+            case = dict(base, save=sroute, restore="restore_checkpoint", first_version=k0, later_version=k1)
+            tmpl = build(kind, s, alt=True)
+            try:
+                with quiet():
+                    g0 = pe.restore_checkpoint(a0, tmpl)
+                    s0 = snap(g0)
+                    g1 = pe.restore_checkpoint(a1, tmpl)
+            except Exception as e:  # noqa: BLE001
+                col.tick(1)
+                col.violation(SIG.format(entry, K_RAISE), dict(case, raised=f"{type(e).__name__}: {str(e)[:300]}"))
+                continue
+            col.tick(1, (kind, pset, s, sroute, "shared-template"))
+            col.outcome("restores_sharing_one_template_module")
+            if snap(g0) != s0 or s0 != versions[k0]["snap"] or snap(g1) != versions[k1]["snap"]:
+                col.violation(SIG.format(entry, "restored-module-changed-by-a-later-restore"), dict(case, first_still_equal=snap(g0) == s0,
+                                                                                                   later_equal=snap(g1) == versions[k1]["snap"]))
         col.sample(dict(base, versions=K, artefacts=" ".join(f"v{k}:{r}" for k, r, _ in saved), n_variables=len(versions[0]["snap"]),
                         variable_types=sorted({t for _, t in versions[0]["vtypes"]})))
     finally:
